@@ -125,9 +125,24 @@ const personalYAML = `- command: "my-backup.sh"
   keywords: ["deploy"]
 `
 
+var materialised int
+
 func materialise(path, fault, content string) {
+	materialised++
 	switch fault {
 	case "ok":
+		// every third good file is reached through a symbolic link (what dotfile managers create), relative or absolute
+		if materialised%3 == 0 {
+			real := path + ".real"
+			os.WriteFile(real, []byte(content), 0o644)
+			target := real
+			if materialised%2 == 0 {
+				target = filepath.Base(real)
+			}
+			if err := os.Symlink(target, path); err == nil {
+				return
+			}
+		}
 		os.WriteFile(path, []byte(content), 0o644)
 	case "empty":
 		os.WriteFile(path, nil, 0o644)
